@@ -35,21 +35,32 @@ package conversion
 //@   loop 3
 //@     invariant fresh(rules) && NextOK(c, rules, fromVer) && same(k, fromVer) && has(c.BaseFromToIndex, k)
 
+// every path stored under key k ends with a rule whose ToVersion is k.ToVersion (part of the
+// cache validity invariant: a stored path really leads to the version its key names)
+//@ pred Ends(m map[Rule][]Rule) := forall(k, Rule, has(m, k) ==> len(m[k]) > 0 && m[k][len(m[k])-1].ToVersion == k.ToVersion)
+
 // C15: the search only adds entries to the paths cache; it never writes into the backing array
-// of a path that is already cached (two extensions of one cached path must not share storage).
+// of a path that is already cached or already discovered in this round (two extensions of one
+// path must not share storage), and every stored path ends at the version its key names.
 //@ func (ChainStorage).FindConversionChain
 //@   prop C15
-//@   opt theory=strings
-//@   requires has(cs.Chains, crdName) ==> cs.Chains[crdName] != nil && cs.Chains[crdName].PathsCache != nil
+//@   requires has(cs.Chains, crdName) ==> cs.Chains[crdName] != nil && cs.Chains[crdName].PathsCache != nil && Ends(cs.Chains[crdName].PathsCache)
 //@   modifies all(mapof(cs.Chains[crdName].PathsCache))
+//@   ensures [cache-ends] has(cs.Chains, crdName) ==> Ends(cs.Chains[crdName].PathsCache)
 //@   loop 1
-//@     invariant true
+//@     invariant Ends(chain.PathsCache)
 //@   loop 2
-//@     invariant true
+//@     invariant [cache] Ends(chain.PathsCache)
+//@     invariant [sep]   newPaths != nil && newPaths != chain.PathsCache
+//@     invariant [new]   Ends(newPaths)
 //@   loop 3
-//@     invariant true
+//@     invariant [cache] Ends(chain.PathsCache)
+//@     invariant [sep]   newPaths != nil && newPaths != chain.PathsCache
+//@     invariant [new]   Ends(newPaths)
 //@   loop 4
-//@     invariant true
+//@     invariant [cache] Ends(chain.PathsCache)
+//@     invariant [sep]   newPaths != nil && newPaths != chain.PathsCache
+//@     invariant [new]   Ends(newPaths)
 
 //@ trusted func (Chain).HasTargetVersion
 //@   modifies nothing
